@@ -1,6 +1,7 @@
 """C08 — probabilistic scores follow their definitions; event probability from the CDF."""
 import itertools
 import math
+import random
 import statistics
 import warnings
 from fractions import Fraction as F
@@ -659,6 +660,13 @@ def gen_dataset(rng, tier):
     for key in ("thr", "qnt"):
         if D.get(key):
             D[key] = [(t, [NAN if rng.random() < pmiss / 2 else v for v in c]) for t, c in D[key]]
+    rng2 = random.Random(rng.random())
+    if rng2.random() < 0.3:
+        # a file may store its thresholds / quantile levels in any order; a column is found by its value
+        for key in ("thr", "qnt"):
+            if D.get(key) and len(D[key]) > 1:
+                D[key] = list(D[key])
+                rng2.shuffle(D[key])
     return D
 
 
